@@ -243,7 +243,8 @@ exprassign(struct expr *e, struct type *t)
 			error(&tok.loc, "assignment to pointer discards qualifiers");
 		break;
 	case TYPENULLPTR:
-		if (et->prop & PROPINT)
+		/* (void *)0 is a null pointer constant as well */
+		if (et->prop & PROPINT || et->kind == TYPEPOINTER && et->base == &typevoid)
 			e = eval(e);
 		if (!nullpointer(e) && et->kind != TYPENULLPTR)
 			error(&tok.loc, "assignment to nullptr_t must be from null pointer constant or expression with type nullptr_t");
